@@ -23,7 +23,7 @@ open ClockBound.Threads
 @[rs_eval] theorem ext_errFrom (r v) : DictThreads.ext.errFrom r v = none := rfl
 
 attribute [rs_eval] DictThreads.path DictThreads.call DictThreads.method DictThreads.refMut
-  DictThreads.ask DictThreads.macroCall DictThreads.hmGet DictThreads.hashMapValue DictThreads.rxValue DictThreads.txValue
+  DictThreads.ask DictThreads.askDone DictThreads.macroCall DictThreads.hmGet DictThreads.hashMapValue DictThreads.rxValue DictThreads.txValue
   DictThreads.mailboxValue DictThreads.chanValue
 
 /-- the six iteration orders -/
